@@ -97,6 +97,27 @@ func (g *G) CrewCase(profile string) CrewCase {
 		}
 		return m
 	}
+	if profile != "noresurrect" && g.P(1, 30) {
+		// a machine that asks the captain to delete and re-create another machine within one round
+		// (both requests are processed inside the same ProcessMsg)
+		target := g.PickS(crewIds[:3]...)
+		res := &SpecD{Name: "resurrector", Nodes: map[string]*NodeD{}}
+		res.Nodes["start"] = &NodeD{Branching: &BranchingD{Branches: []BranchD{{Target: "listen"}}}}
+		res.Nodes["listen"] = &NodeD{Branching: &BranchingD{Type: "message", Branches: []BranchD{
+			{Pattern: map[string]interface{}{"go": "resurrect"}, Target: "doit"}}}}
+		res.Nodes["doit"] = &NodeD{
+			Action: &Prog{Lang: "es", Ret: "bs", Ops: [][]interface{}{
+				{"emit", map[string]interface{}{"to": "captain", "delete": []interface{}{target}}},
+				{"emit", map[string]interface{}{"to": "captain", "update": map[string]interface{}{target: map[string]interface{}{
+					"spec": map[string]interface{}{"inline": InlineSpecJSON(c.Specs[names[0]])}}}}},
+			}},
+			Branching: &BranchingD{Type: "bindings", Branches: []BranchD{{Target: "listen"}}}}
+		c.Specs["resurrector"] = res
+		c.Init["z"] = CrewMachineD{Spec: "resurrector", State: nil}
+		c.Init[target] = CrewMachineD{Spec: names[0], State: &StateD{Node: "listen", Bs: map[string]interface{}{"n": 5.0}}}
+		c.History = append(c.History, map[string]interface{}{"d": 2.0, "to": target}, map[string]interface{}{"to": "z", "go": "resurrect"})
+		c.Profile = "resurrect"
+	}
 	nh := 2 + g.Intn(7)
 	for i := 0; i < nh; i++ {
 		var m map[string]interface{}
